@@ -240,7 +240,7 @@ def setup(tier):
     dq = wd.mod("watchdog.utils.delayed_queue")
     ib = wd.mod("watchdog.observers.inotify_buffer")
     C = dq.DelayedQueue
-    desc = vsched.instrument(line_modules=[ib, dq, wd.mod("watchdog.utils")], instr_functions=[C.get, C.remove],
+    desc = vsched.instrument(line_modules=[ib, dq, wd.mod("watchdog.utils")], instr_functions=[(C, "get"), (C, "remove")],
                              exclude=("BaseThread.__init__", "BaseThread.stopped_event", "load_module", "load_class",
                                       "InotifyBuffer.__init__"))
     return harnesses(tier), desc
